@@ -1,2 +1,266 @@
-import FpgoVerif.Model.C15
-/-! Property theorems for C15 (none yet). -/
+import FpgoVerif.Proofs.C15Mailbox
+import FpgoVerif.Proofs.C15Bcq
+import FpgoVerif.Proofs.C15Cor
+import FpgoVerif.Proofs.C15Pool
+import FpgoVerif.Gen.Skeletons
+import FpgoVerif.Gen.C15Bodies
+/-! Property theorems for C15 — "Shutdown is safe at any moment".  One transition system per component
+    (Model/C15*.lean); every theorem quantifies over all reachable states = all interleavings of any number
+    of goroutines with the one closing goroutine. -/
+namespace FpgoVerif.C15
+
+/-! ## Handler / Actor -/
+
+/-- no goroutine panics: no send on the closed channel escapes the recover scope, the channel is closed once -/
+theorem C15_mailbox_safe {cap s} (h : Mb.Reach cap true s) : s.panic = false :=
+  (Mb.inv_reach h).nopanic (Mb.recovers_const h)
+
+/-- the code before fa052a2 (no recover around the send): Close between check and send panics the sender -/
+theorem C15_mailbox_unfixed_panics : ∃ s, Mb.Reach 0 false s ∧ s.panic = true := by
+  let acts : List (Option Bool × Mb.PC) :=
+    [(none, .p0 1), (some false, .p0 1), (none, .c0), (some false, .c0), (some false, .c1), (some false, .p1 1)]
+  have h : ((Mb.runActs (Mb.init 0 false) acts).map (·.panic)) = some true := by decide
+  cases hr : Mb.runActs (Mb.init 0 false) acts with
+  | none => simp [hr] at h
+  | some s => exact ⟨s, Mb.runActs_reach acts Mb.Reach.init hr, by simpa [hr] using h⟩
+
+/-- after Close has returned the flag is set, the channel is closed, and no closed-check has passed since -/
+theorem C15_mailbox_after {cap r s} (h : Mb.Reach cap r s) :
+    s.late = 0 ∧ (s.closeDone = true → s.flag = true ∧ s.chClosed = true) :=
+  ⟨(Mb.inv_reach h).late0, fun hd => ⟨(Mb.inv_reach h).doneFlag hd, (Mb.inv_reach h).doneClosed hd⟩⟩
+
+/-- a Post/Send whose first atom follows Close's last atom is dropped: it returns at the check, enqueues
+    nothing and runs no callback -/
+theorem C15_mailbox_after_dropped {cap r s m ch s' nx} (h : Mb.Reach cap r s) (hd : s.closeDone = true)
+    (hs : Mb.gstep s (.p0 m) ch = some (s', nx)) : nx = .fin .ok ∧ s'.buf = s.buf ∧ s'.ran = s.ran := by
+  have hf := (Mb.inv_reach h).doneFlag hd
+  obtain ⟨_, s1, hs1, rfl⟩ := Mb.gstep_some hs
+  simp [Mb.step, hf] at hs1
+  obtain ⟨rfl, rfl⟩ := hs1
+  simp
+
+/-- no deadlock: while any Post/Send, the Close or a callback is in progress some goroutine can step
+    (callbacks terminate = the gate is open) — in particular a sender blocked in the send is released by the
+    consumer or, after Close, by the recovered panic -/
+theorem C15_mailbox_nodeadlock {cap s} (h : Mb.Reach cap true s) (hg : s.gate = true)
+    (hb : 0 < s.cnt .p0 ∨ 0 < s.cnt .p1 ∨ 0 < s.cnt .c0 ∨ 0 < s.cnt .c1 ∨ 0 < s.cnt .r1) :
+    ∃ pc ch s' nx, Mb.gstep s pc ch = some (s', nx) :=
+  Mb.progress (Mb.inv_reach h) (Mb.recovers_const h) hg hb
+
+/-- non-vacuity: a state with a sender past the check while Close is half done is reachable -/
+example : ∃ s, Mb.Reach 1 true s ∧ 0 < s.cnt .p1 ∧ 0 < s.cnt .c1 := by
+  let acts : List (Option Bool × Mb.PC) := [(none, .p0 1), (some false, .p0 1), (none, .c0), (some false, .c0)]
+  have h : ((Mb.runActs (Mb.init 1 true) acts).map (fun s => decide (0 < s.cnt .p1 ∧ 0 < s.cnt .c1))) = some true := by decide
+  cases hr : Mb.runActs (Mb.init 1 true) acts with
+  | none => simp [hr] at h
+  | some s => exact ⟨s, Mb.runActs_reach acts Mb.Reach.init hr, by simpa [hr] using h⟩
+
+/-! ## BufferedChannelQueue -/
+
+/-- no goroutine panics (users, closer, loader): nothing is sent on / closes a closed channel -/
+theorem C15_bcq_safe {c b s} (h : Bq.Reach c b true true s) : s.panic = false :=
+  (Bq.inv_reach h).nopanic
+
+/-- the code before c8ecf0a, notifyWorkers without lock and closed-check: Take checks, Close closes, the wake-up
+    is sent on the closed loadWorkerCh -/
+theorem C15_bcq_unfixed_notify_panics : ∃ s, Bq.Reach 1 1 false true s ∧ s.panic = true := by
+  let acts : List (Option Bool × Bq.PC) :=
+    [(none, .t0 .take), (some false, .t0 .take), (none, .c0), (some false, .c0), (some false, .c1), (some false, .c2),
+     (some false, .n1 .take), (some false, .n2 .take)]
+  have h : ((Bq.runActs (Bq.init 1 1 false true) acts).map (·.panic)) = some true := by decide
+  cases hr : Bq.runActs (Bq.init 1 1 false true) acts with
+  | none => simp [hr] at h
+  | some s => exact ⟨s, Bq.runActs_reach acts Bq.Reach.init hr, by simpa [hr] using h⟩
+
+/-- the code before c8ecf0a, loader without the re-check under the lock: it try-sends on the closed channel -/
+theorem C15_bcq_unfixed_loader_panics : ∃ s, Bq.Reach 1 2 true false s ∧ s.panic = true := by
+  let acts : List (Option Bool × Bq.PC) :=
+    [(none, .o0 1), (some false, .o0 1), (some false, .o1 1), (none, .o0 2), (some false, .o0 2), (some false, .o1 2),
+     (some false, .l0), (some false, .l1), (none, .c0), (some false, .c0), (some false, .c1), (some false, .c2),
+     (some false, .l2), (some false, .l3), (some false, .l4 2)]
+  have h : ((Bq.runActs (Bq.init 1 2 true false) acts).map (·.panic)) = some true := by decide
+  cases hr : Bq.runActs (Bq.init 1 2 true false) acts with
+  | none => simp [hr] at h
+  | some s => exact ⟨s, Bq.runActs_reach acts Bq.Reach.init hr, by simpa [hr] using h⟩
+
+/-- after Close has returned: flag set, both channels closed, no closed-check has passed since -/
+theorem C15_bcq_after {c b s} (h : Bq.Reach c b true true s) :
+    s.late = 0 ∧ (s.closeDone = true → s.flag = true ∧ s.chanClosed = true ∧ s.loadClosed = true) := by
+  have hi := Bq.inv_reach h
+  exact ⟨hi.late0, fun hd => ⟨hi.doneFlag hd, hi.doneAll hd, (hi.chanFlag (hi.doneAll hd)).1⟩⟩
+
+/-- calls whose first atom follows Close's last atom report it: Take/TakeWithTimeout/Poll → ErrQueueIsClosed,
+    Offer/Put (under the lock) → ErrQueueIsClosed, Count → 0, IsClosed → true -/
+theorem C15_bcq_after_reports {c b s ch s' nx} (h : Bq.Reach c b true true s) (hd : s.closeDone = true) :
+    (∀ k, Bq.gstep s (.t0 k) ch = some (s', nx) → nx = .fin .closed) ∧
+    (∀ v, Bq.gstep s (.o1 v) ch = some (s', nx) → nx = .fin .closed) ∧
+    (Bq.gstep s .k0 ch = some (s', nx) → nx = .fin (.n 0)) ∧
+    (Bq.gstep s .ic ch = some (s', nx) → nx = .fin (.b true)) := by
+  have hf := (Bq.inv_reach h).doneFlag hd
+  refine ⟨?_, ?_, ?_, ?_⟩
+  · intro k hs
+    obtain ⟨_, s1, hs1, _⟩ := Bq.gstep_some hs
+    simp [Bq.step, hf] at hs1; exact hs1.2.symm
+  · intro v hs
+    obtain ⟨_, s1, hs1, _⟩ := Bq.gstep_some hs
+    simp [Bq.step, hf] at hs1; exact hs1.2.symm
+  · intro hs
+    obtain ⟨_, s1, hs1, _⟩ := Bq.gstep_some hs
+    simp [Bq.step, hf] at hs1; exact hs1.2.symm
+  · intro hs
+    obtain ⟨_, s1, hs1, _⟩ := Bq.gstep_some hs
+    simp [Bq.step, hf] at hs1; exact hs1.2.symm
+
+/-- no deadlock: once Close has begun, as long as any goroutine is inside the queue (a user mid-call, the closer,
+    the loader) some goroutine can step — blocked consumers are released by the closed channel, lock waiters by
+    the lock holder, which never blocks -/
+theorem C15_bcq_nodeadlock {c b s} (h : Bq.Reach c b true true s) (hcs : s.closeStarted = true)
+    (hb : ∃ k, 0 < s.cnt k) : ∃ pc ch s' nx, Bq.gstep s pc ch = some (s', nx) :=
+  Bq.progress (Bq.inv_reach h) hcs hb
+
+/-! ## Coroutines -/
+
+/-- no panic: nobody sends on the target's closed opCh (both before and after cb38847) -/
+theorem C15_cor_safe {cap f s} (h : Co.Reach cap f s) : s.panic = false :=
+  (Co.inv_reach h).nopanic
+
+/-- after the target's close() has completed: IsDone, opCh closed, no done-check has passed since -/
+theorem C15_cor_after {cap f s} (h : Co.Reach cap f s) :
+    s.late = 0 ∧ (s.closeDone = true → s.gflag = true ∧ s.opClosed = true) := by
+  have hi := Co.inv_reach h
+  exact ⟨hi.late0, fun hd => ⟨(hi.done hd).1, (hi.done hd).2.1⟩⟩
+
+/-- a YieldFrom whose first atom follows the completion of close() returns the zero value without queueing -/
+theorem C15_cor_after_zero {cap f s id x ch s' nx} (h : Co.Reach cap f s) (hd : s.closeDone = true)
+    (hs : Co.gstep s (.r0 id x) ch = some (s', nx)) : nx = .fin (.okv 0) ∧ s'.opCh = s.opCh := by
+  have hi := Co.inv_reach h
+  obtain ⟨hg, hop, _⟩ := hi.done hd
+  obtain ⟨_, s1, hs1, rfl⟩ := Co.gstep_some hs
+  have hr1 := (hi.opc hop).2.1
+  simp [Co.step, hg, hr1] at hs1
+  obtain ⟨rfl, rfl⟩ := hs1
+  simp
+
+/-- no deadlock (current code, cb38847): once the target's effect has returned, every goroutine still inside
+    YieldFrom or close() can step until all have returned -/
+theorem C15_cor_nodeadlock {cap s} (h : Co.Reach cap true s) (hr : s.retStarted = true)
+    (hb : 0 < s.cnt .r0 ∨ 0 < s.cnt .r1 ∨ 0 < s.cnt .w ∨ 0 < s.cnt .isd ∨
+          0 < s.cnt .gc0 + s.cnt .gc1 + s.cnt .gc2 + s.cnt .gc3) :
+    ∃ pc ch s' nx, Co.gstep s pc ch = some (s', nx) :=
+  Co.progress (Co.inv_reach h) (Co.fixed_const h) hr hb
+
+/-- the code before cb38847 deadlocks: with opCh full a sender holds closedM inside the blocking send, the
+    finishing target waits for closedM, and neither can step (capacity 1: two callers) -/
+theorem C15_cor_unfixed_deadlock :
+    ∃ s, Co.Reach 1 false s ∧ s.retStarted = true ∧ 0 < s.cnt .r1 ∧ 0 < s.cnt .gc2 ∧
+      (Co.gstep s (.r1 2 6) false).isNone = true ∧ (Co.gstep s .gc2 false).isNone = true := by
+  let acts : List (Option Bool × Co.PC) :=
+    [(none, .r0 1 5), (some false, .r0 1 5), (some false, .r1 1 5), (none, .r0 2 6), (some false, .r0 2 6),
+     (none, .gc0), (some false, .gc0), (some false, .gc1)]
+  have h : ((Co.runActs (Co.init 1 false) acts).map (fun s => s.retStarted && decide (0 < s.cnt .r1) &&
+      decide (0 < s.cnt .gc2) && (Co.gstep s (.r1 2 6) false).isNone && (Co.gstep s .gc2 false).isNone)) = some true := by decide
+  cases hr : Co.runActs (Co.init 1 false) acts with
+  | none => simp [hr] at h
+  | some s =>
+    refine ⟨s, Co.runActs_reach acts Co.Reach.init hr, ?_⟩
+    simp [hr] at h
+    obtain ⟨⟨⟨⟨h1, h2⟩, h3⟩, h4⟩, h5⟩ := h
+    exact ⟨h1, h2, h3, by simpa using h4, by simpa using h5⟩
+
+/-- the code before cb38847 strands callers: the target is done, a request it accepted sits unanswered in opCh
+    and its caller waits on resultCh with no answer coming -/
+theorem C15_cor_unfixed_stranded :
+    ∃ s, Co.Reach 5 false s ∧ s.closeDone = true ∧ 0 < s.cnt .w ∧ s.answers = [] ∧ s.opCh ≠ [] := by
+  let acts : List (Option Bool × Co.PC) :=
+    [(none, .r0 1 5), (some false, .r0 1 5), (some false, .r1 1 5), (none, .gc0), (some false, .gc0), (some false, .gc1),
+     (some false, .gc2)]
+  have h : ((Co.runActs (Co.init 5 false) acts).map (fun s => s.closeDone && decide (0 < s.cnt .w) &&
+      s.answers.isEmpty && !s.opCh.isEmpty)) = some true := by decide
+  cases hr : Co.runActs (Co.init 5 false) acts with
+  | none => simp [hr] at h
+  | some s =>
+    refine ⟨s, Co.runActs_reach acts Co.Reach.init hr, ?_⟩
+    simp [hr] at h
+    obtain ⟨⟨⟨h1, h2⟩, h3⟩, h4⟩ := h
+    exact ⟨h1, h2, by simpa [List.isEmpty_iff] using h3, by simpa [List.isEmpty_iff] using h4⟩
+
+/-! ## WorkerPool -/
+
+/-- no goroutine panics on the pool's close path and the panic handler never sees a non-job panic -/
+theorem C15_pool_safe {cap qc s} (h : Pl.Reach cap qc true s) : s.panic = false ∧ s.np = 0 :=
+  ⟨(Pl.inv_reach h).nopanic, (Pl.inv_reach h).np0⟩
+
+/-- the code before c8ecf0a: a worker's GetChannel() after the job queue was closed panics outside any job and
+    the worker hands that panic to the pool's panic handler -/
+theorem C15_pool_unfixed_handler : ∃ s, Pl.Reach 2 true false s ∧ s.np = 1 := by
+  let acts : List (Option Bool × Pl.PC) :=
+    [(some false, .w0), (none, .pc0), (some false, .pc0), (some false, .pc1), (some false, .qc1), (some false, .qc2),
+     (some false, .w1), (some false, .w2)]
+  have h : ((Pl.runActs (Pl.init 2 true false) acts).map (·.np)) = some 1 := by decide
+  cases hr : Pl.runActs (Pl.init 2 true false) acts with
+  | none => simp [hr] at h
+  | some s => exact ⟨s, Pl.runActs_reach acts Pl.Reach.init hr, by simpa [hr] using h⟩
+
+/-- after Close has returned the pool reports closed and no closed-check has passed since: Schedule returns
+    ErrWorkerPoolIsClosed and enqueues nothing, so no job submitted afterwards can run -/
+theorem C15_pool_after {cap qc s} (h : Pl.Reach cap qc true s) :
+    s.late = 0 ∧ (s.closeDone = true → s.pflag = true) :=
+  ⟨(Pl.inv_reach h).late0, (Pl.inv_reach h).doneFlag⟩
+
+theorem C15_pool_after_reports {cap qc s j ch s' nx} (h : Pl.Reach cap qc true s) (hd : s.closeDone = true)
+    (hs : Pl.gstep s (.s0 j) ch = some (s', nx)) : nx = .fin .pclosed ∧ s'.jobs = s.jobs := by
+  have hf := (Pl.inv_reach h).doneFlag hd
+  obtain ⟨_, s1, hs1, rfl⟩ := Pl.gstep_some hs
+  simp [Pl.step, hf] at hs1
+  obtain ⟨rfl, rfl⟩ := hs1
+  simp
+
+/-! ## Executor: the driver's re-tabulation of the counters is the identity, so every state the directed-schedule
+    executor visits is a `Reach` state of the component -/
+theorem C15_exec_compact_mailbox (s : Mb.St) : Mb.compact s = s := Mb.compact_eq s
+theorem C15_exec_compact_bcq (s : Bq.St) : Bq.compact s = s := Bq.compact_eq s
+theorem C15_exec_compact_cor (s : Co.St) : Co.compact s = s := Co.compact_eq s
+theorem C15_exec_compact_pool (s : Pl.St) : Pl.compact s = s := Pl.compact_eq s
+
+/-! ## Protocol tie (regenerated from the repository on every run)
+    `C15_body_*`: the exact statements of the small protocol functions (order of flag / close / send, lock mode,
+    recover scope, guards).  `C15_skel_*`: the protocol skeleton of the larger functions. -/
+
+theorem C15_body_HandlerDef_Post : Gen.c15BodyOf "HandlerDef.Post" = some "{ if self.isClosed.Get() { return } defer func() { recover() }() self.ch <- fn }" := by decide +kernel
+theorem C15_body_HandlerDef_Close : Gen.c15BodyOf "HandlerDef.Close" = some "{ self.isClosed.Set(true) close(self.ch) }" := by decide +kernel
+theorem C15_body_HandlerDef_run : Gen.c15BodyOf "HandlerDef.run" = some "{ for fn := range self.ch { fn() } }" := by decide +kernel
+theorem C15_body_ActorDef_Send : Gen.c15BodyOf "ActorDef.Send" = some "{ if self.isClosed.Get() { return } defer func() { recover() }() self.ch <- message }" := by decide +kernel
+theorem C15_body_ActorDef_Close : Gen.c15BodyOf "ActorDef.Close" = some "{ self.isClosed.Set(true) close(self.ch) }" := by decide +kernel
+theorem C15_body_ActorDef_run : Gen.c15BodyOf "ActorDef.run" = some "{ for message := range self.ch { self.effect(self, message) } }" := by decide +kernel
+theorem C15_body_BufferedChannelQueue_notifyWorkers : Gen.c15BodyOf "BufferedChannelQueue.notifyWorkers" = some "{ self.lock.RLock() defer self.lock.RUnlock() if self.isClosed.Get() { return } self.loadWorkerCh.Offer(1) self.freeNodeWorkerCh.Offer(1) }" := by decide +kernel
+theorem C15_body_BufferedChannelQueue_Close : Gen.c15BodyOf "BufferedChannelQueue.Close" = some "{ self.lock.Lock() defer self.lock.Unlock() self.isClosed.Set(true) close(self.loadWorkerCh) close(self.blockingQueue) }" := by decide +kernel
+theorem C15_body_BufferedChannelQueue_Take : Gen.c15BodyOf "BufferedChannelQueue.Take" = some "{ if self.isClosed.Get() { return *new(T), ErrQueueIsClosed } self.notifyWorkers() return self.blockingQueue.Take() }" := by decide +kernel
+theorem C15_body_BufferedChannelQueue_TakeWithTimeout : Gen.c15BodyOf "BufferedChannelQueue.TakeWithTimeout" = some "{ if self.isClosed.Get() { return *new(T), ErrQueueIsClosed } self.notifyWorkers() return self.blockingQueue.TakeWithTimeout(timeout) }" := by decide +kernel
+theorem C15_body_BufferedChannelQueue_Poll : Gen.c15BodyOf "BufferedChannelQueue.Poll" = some "{ if self.isClosed.Get() { return *new(T), ErrQueueIsClosed } self.notifyWorkers() return self.blockingQueue.Poll() }" := by decide +kernel
+theorem C15_body_BufferedChannelQueue_GetChannel : Gen.c15BodyOf "BufferedChannelQueue.GetChannel" = some "{ self.notifyWorkers() return self.blockingQueue }" := by decide +kernel
+theorem C15_body_BufferedChannelQueue_Count : Gen.c15BodyOf "BufferedChannelQueue.Count" = some "{ if self.isClosed.Get() { return 0 } self.lock.RLock() defer self.lock.RUnlock() return len(self.blockingQueue) + self.pool.Count() }" := by decide +kernel
+theorem C15_body_BufferedChannelQueue_Put : Gen.c15BodyOf "BufferedChannelQueue.Put" = some "{ return self.Offer(val) }" := by decide +kernel
+theorem C15_body_ChannelQueue_Offer : Gen.c15BodyOf "ChannelQueue.Offer" = some "{ select { case self <- val: return nil default: return ErrQueueIsFull } }" := by decide +kernel
+theorem C15_body_ChannelQueue_Take : Gen.c15BodyOf "ChannelQueue.Take" = some "{ val, ok := <-self if !ok { return *new(T), ErrQueueIsClosed } return val, nil }" := by decide +kernel
+theorem C15_body_ChannelQueue_Poll : Gen.c15BodyOf "ChannelQueue.Poll" = some "{ select { case val, ok := <-self: if !ok { return *new(T), ErrQueueIsClosed } return val, nil default: return *new(T), ErrQueueIsEmpty } }" := by decide +kernel
+theorem C15_body_ChannelQueue_TakeWithTimeout : Gen.c15BodyOf "ChannelQueue.TakeWithTimeout" = some "{ select { case val, ok := <-self: if !ok { return *new(T), ErrQueueIsClosed } return val, nil case <-time.After(timeout): return *new(T), ErrQueueTakeTimeout } }" := by decide +kernel
+theorem C15_body_CorDef_close : Gen.c15BodyOf "CorDef.close" = some "{ self.isClosed.Set(true) if self.doneCh != nil { close(self.doneCh) } self.closedM.Lock() if self.resultCh != nil { close(self.resultCh) } if self.opCh != nil { close(self.opCh) } self.closedM.Unlock() if self.opCh != nil { for op := range self.opCh { if op != nil && op.cor != nil { cor := op.cor cor.doCloseSafe(func() { var zero T cor.resultCh <- zero }) } } } }" := by decide +kernel
+theorem C15_body_CorDef_doCloseSafe : Gen.c15BodyOf "CorDef.doCloseSafe" = some "{ self.closedM.Lock() defer self.closedM.Unlock() if self.IsDone() { return } fn() }" := by decide +kernel
+theorem C15_body_CorDef_receive : Gen.c15BodyOf "CorDef.receive" = some "{ delivered := false self.doCloseSafe(func() { if self.opCh != nil { select { case self.opCh <- &CorOp[T]{cor: cor, val: in}: delivered = true case <-self.doneCh: } } }) return delivered }" := by decide +kernel
+theorem C15_body_CorDef_YieldFrom : Gen.c15BodyOf "CorDef.YieldFrom" = some "{ var result T if self.IsDone() { return result } if !target.receive(self, in) { return result } result, _ = <-self.resultCh return result }" := by decide +kernel
+theorem C15_body_CorDef_YieldRef : Gen.c15BodyOf "CorDef.YieldRef" = some "{ var result T if self.IsDone() { return result } var op *CorOp[T] var more bool op, more = <-self.opCh if more && op != nil && op.cor != nil { cor := op.cor cor.doCloseSafe(func() { cor.resultCh <- out }) } result = op.val return result }" := by decide +kernel
+theorem C15_body_CorDef_Start : Gen.c15BodyOf "CorDef.Start" = some "{ if self.IsDone() || self.isStarted.Get() { return } self.isStarted.Set(true) go func() { self.effect() self.close() }() }" := by decide +kernel
+theorem C15_body_DefaultWorkerPool_Close : Gen.c15BodyOf "worker.DefaultWorkerPool.Close" = some "{ if self.IsClosed() { return } self.isClosed.Set(true) if self.isJobQueueClosedWhenClose { self.jobQueue.Close() } }" := by decide +kernel
+theorem C15_body_DefaultWorkerPool_Schedule : Gen.c15BodyOf "worker.DefaultWorkerPool.Schedule" = some "{ if self.IsClosed() { return ErrWorkerPoolIsClosed } defer self.spawnWorkerCh.Offer(1) err := self.jobQueue.Offer(fn) if err == fpgo.ErrQueueIsFull { return ErrWorkerPoolJobQueueIsFull } return err }" := by decide +kernel
+theorem C15_body_DefaultWorkerPool_IsClosed : Gen.c15BodyOf "worker.DefaultWorkerPool.IsClosed" = some "{ return self.isClosed.Get() }" := by decide +kernel
+theorem C15_skel_BufferedChannelQueue_Offer : Gen.skeletonOf "BufferedChannelQueue.Offer" = some "call(lock.Lock) defer{call(lock.Unlock)} if[get(isClosed) call(isClosed.Get)]{return} get(pool) call(pool.Count) if[]{call(blockingQueue.Offer) if[]{return}else{if[]{}else{return}}} if[]{return} get(pool) call(pool.Offer) call(loadWorkerCh.Offer) return" := by decide +kernel
+theorem C15_skel_BufferedChannelQueue_loadFromPool : Gen.skeletonOf "BufferedChannelQueue.loadFromPool" = some "rangech(loadWorkerCh){if[get(isClosed) call(isClosed.Get)]{break} call(lock.Lock) if[get(isClosed) call(isClosed.Get)]{call(lock.Unlock) break} for[get(pool) call(pool.Count)]{get(pool) call(pool.Poll) if[]{break} call(blockingQueue.Offer) if[]{get(pool) call(pool.Unshift) break}} call(lock.Unlock) call(Sleep)}" := by decide +kernel
+theorem C15_skel_BufferedChannelQueue_freeNodePool : Gen.skeletonOf "BufferedChannelQueue.freeNodePool" = some "rangech(freeNodeWorkerCh){call(Sleep) if[get(isClosed) call(isClosed.Get)]{break} call(lock.Lock) if[get(pool)]{get(pool) call(pool.KeepNodePoolCount)} call(lock.Unlock)}" := by decide +kernel
+theorem C15_skel_NewBufferedChannelQueue : Gen.skeletonOf "NewBufferedChannelQueue" = some "call(NewLinkedListQueue) set(pool) call(NewChannelQueue) call(NewChannelQueue) call(NewChannelQueue) go{call(freeNodePool)} go{call(loadFromPool)} return" := by decide +kernel
+theorem C15_skel_HandlerDef_NewByCh : Gen.skeletonOf "HandlerDef.NewByCh" = some "go{call(run)} return" := by decide +kernel
+theorem C15_skel_ActorNewByOptionsGenerics : Gen.skeletonOf "ActorNewByOptionsGenerics" = some "go{call(run)} return" := by decide +kernel
+theorem C15_skel_DefaultWorkerPool_generateWorkerWithMaximum : Gen.skeletonOf "worker.DefaultWorkerPool.generateWorkerWithMaximum" = some "call(lock.Lock) defer{call(lock.Unlock)} if[get(workerCount) get(workerCount)]{return} get(workerCount) set(workerCount) go{defer{call(recover) if[]{if[]{callfn(handler)}} call(lock.Lock) if[]{get(workerCount) set(workerCount)} if[]{get(workerBusy) set(workerBusy)} call(lock.Unlock) if[]{call(spawnWorkerCh.Offer)}} for[]{if[call(IsClosed)]{return} select{call(jobQueue.GetChannel) recv(jobQueue.GetChannel())=>{if[]{call(lock.Lock) get(workerBusy) set(workerBusy) call(lock.Unlock) callfn(job) call(lock.Lock) get(workerBusy) set(workerBusy) call(lock.Unlock)}} | call(After) recv(After())=>{call(lock.Lock) get(workerCount) set(workerCount) if[]{get(workerCount) set(workerCount) call(lock.Unlock) break} call(lock.Unlock)}}}}" := by decide +kernel
+theorem C15_skel_DefaultWorkerPool_spawnLoop : Gen.skeletonOf "worker.DefaultWorkerPool.spawnLoop" = some "defer{call(recover) if[]{call(defaultPanicHandler)}} rangech(spawnWorkerCh){if[call(IsClosed)]{break} call(trySpawn) call(Sleep)}" := by decide +kernel
+theorem C15_skel_NewDefaultWorkerPool : Gen.skeletonOf "worker.NewDefaultWorkerPool" = some "call(NewChannelQueue) go{call(spawnLoop)} return" := by decide +kernel
+
+end FpgoVerif.C15
